@@ -102,8 +102,13 @@ EXPORT errno_t _wcsncpy_s_chk(wchar_t *restrict dest, rsize_t dmax,
     const wchar_t *overlap_bumper;
     const size_t destsz = dmax * sizeof(wchar_t);
 
-    if (unlikely(slen == 0 && dest && dmax && dmax <= RSIZE_MAX_WSTR)) {
+    if (unlikely(slen == 0 && dest && dmax && dmax <= RSIZE_MAX_WSTR &&
+                 destsz <= destbos)) {
+#ifdef SAFECLIB_STR_NULL_SLACK
+        memset(dest, 0, destsz);
+#else
         *dest = L'\0';
+#endif
         return EOK;
     }
     CHK_DEST_NULL("wcsncpy_s")
